@@ -355,3 +355,11 @@ func init() {
 	addMutant(Mutant{Name: "c07-decimal-asserts-float64", Property: "C07", File: "ytypes/decimal_type.go",
 		Old: "\tvv := reflect.ValueOf(value)\n\tif vv.Kind() != reflect.Float64 {", New: "\tvv := reflect.ValueOf(value)\n\tif _, isFloat := value.(float64); !isFloat {", Expect: "validateDecimal:accepts-named-member-types"})
 }
+
+func init() {
+	// R-UNSET-KEY (C20, C12)
+	addMutant(Mutant{Name: "c20-by-value-key-unchecked", Property: "C20", File: "ytypes/list.go",
+		Old: "\t\t\tif fv.IsZero() {\n\t\t\t\t// A key leaf that is stored by value (an enumeration or a\n\t\t\t\t// union) is unset when it has its zero value.\n\t\t\t\treturn nil, fmt.Errorf(\"key field %s (%s) is not set\", key, fv.Type())\n\t\t\t}\n", New: "", Expect: "getKeyValue:by-value-return"})
+	addMutant(Mutant{Name: "c12-multikey-by-value-unchecked", Property: "C12", File: "ytypes/list.go",
+		Old: "if !nv.IsValid() || (fv.Type().Kind() != reflect.Ptr && fv.IsZero()) {", New: "if !nv.IsValid() {", Expect: "makeKeyForInsert:key-field-copy"})
+}
